@@ -95,6 +95,8 @@ def h16_eager(S, pre_len=3):
     action = CALLS[S.pick("eager", len(CALLS))]
     guarded = S.flag("actor_catches_Exception_around_the_response")
     # the whole _Processor.process() around the actor, for a one-off or a periodic job: nothing else touches the broker afterwards
+    # retry() with the budget spent is refused (ValueError) and leaves everything untouched; the actor then answers with nack
+    refused_first = action == "retry" and S.flag("retry_refused_first_then_nack")
     store_fails = S.flag("result_store_fails")            # the failure text looks like JSON (braces)
     via_process = S.flag("through_the_processor")
     periodic = S.flag("periodic_job") if via_process else False
@@ -116,7 +118,7 @@ def h16_eager(S, pre_len=3):
 
         w.rb.store_bucket = store
         key = RoutingKey(topic="job", queue="default", id_="m1")
-        params = P.Parameters(retries=P.RetriesProperties(max_amount=3, already_tried=0),
+        params = P.Parameters(retries=P.RetriesProperties(max_amount=0 if refused_first else 3, already_tried=0),
                               delay=P.DelayProperties(defer_by=real_timedelta(hours=1)) if periodic else P.DelayProperties(),
                               result=P.ResultProperties(id_="res1", ttl=None), timestamp=P.datetime.now())
         w.broker.queues["default"].processing.add(MemMessage(key, "", params))
@@ -136,7 +138,13 @@ def h16_eager(S, pre_len=3):
                     m.set_result({"v": idx})
                 else:
                     m.set_exception(KeyError(f"e{idx}"))
-            if guarded:
+            if refused_first:
+                try:
+                    await m.retry()
+                except ValueError:
+                    order.append(("refused",))
+                    await m.nack()
+            elif guarded:
                 try:
                     await getattr(m, action)()
                 except Exception:  # noqa: BLE001  (a broad handler must not swallow the eager-response signal)
@@ -162,7 +170,11 @@ def h16_eager(S, pre_len=3):
     S.check("rest-of-actor-body-not-run", after == [])
     if res is not None:
         S.check("reported-as-done", res.reporting_done is True)
-    S.check("one-broker-action", out["calls"] == [BROKER_OP[action]], info=str(out["calls"]))
+    S.check("one-broker-action", out["calls"] == ["nack" if refused_first else BROKER_OP[action]], info=str(out["calls"]))
+    if refused_first:
+        S.cover("refused-then-fallback")
+        S.check("refused-call-leaves-callbacks-and-store-untouched", order[:1] == [("refused",)], info=f"before the refusal was seen: {order[:order.index(('refused',))] if ('refused',) in order else order}")
+        order[:] = [x for x in order if x != ("refused",)]
     # expected order: callbacks in registration order, the store where the latest set_* call stood
     sets = [i for i, p in enumerate(pre) if p in ("set_result", "set_exception")]
     expected = []
